@@ -52,6 +52,30 @@ def cfg_set(pid):
     return c
 
 
+def replay_cfg_set(obligation, model, meta):
+    """native run of the real Config._set over numeric-looking and other strings: the stored value and its type must be what
+    int() / float() give, the string itself otherwise"""
+    from andes.core.common import Config
+    samples = ['0', '1', '-3', '+7', ' 5 ', '1_000', '1.5', '.5', '5.', '1e3', '1e-3', '1e+1', '2.5E+3', '1e+16', '1E16', 'inf', '-inf',
+               'nan', 'Infinity', 'abc', '', '1e', '0x10', '1.2.3', 'True', '1e+400', '١٢']
+    for s in samples:
+        try:
+            want = int(s)
+        except ValueError:
+            try:
+                want = float(s)
+            except ValueError:
+                want = s
+        c = Config('X')
+        c._set('k', s)
+        got = c.__dict__['k']
+        same = type(got) is type(want) and (got == want or (isinstance(want, float) and want != want and got != got))
+        if not same:
+            return {'confirmed': True, 'inputs': {'val': s}, 'observed': 'stored %r (%s), expected %r (%s)' % (got, type(got).__name__, want, type(want).__name__),
+                    'native_cmd': "Config('X')._set('k', val)"}
+    return {'confirmed': False, 'tried': len(samples)}
+
+
 def cfg_set_nonstr(pid):
     """Config._set with a non-string value stores the value unchanged (type preserved)."""
     return Contract(FC, 'Config._set', pid=pid, params={'self': TObj(), 'key': TConst('k'), 'val': TInt()},
